@@ -20,7 +20,8 @@ RULE = ('history = pool of generated expression ASTs (depth <= 5: traced functio
         'history that exceeds a bound and re-touches an old key; distinct = distinct canonical case JSON')
 ASSUMPTIONS = [
     'all callables live in vlib/targets.py (importable, so cloudpickle pickles them by reference) and count their invocations',
-    'expression equality (cache key) is structural: same callable, same arguments; modelled by the canonical JSON of the subtree',
+    'expression equality (cache key) is the library\'s: same callable, same arguments and keyword arguments, recursively - the '
+    'cache/lazy flags are not part of it; modelled by the canonical JSON of the subtree with the flags stripped',
 ]
 
 BOUND_FN, BOUND_OBJ = 128, 1024
@@ -62,6 +63,20 @@ class Missing(Exception):
   pass
 
 
+def _strip_flags(e):
+  if isinstance(e, dict):
+    return {k: _strip_flags(v) for k, v in e.items() if k not in ('cache', 'lazy')}
+  if isinstance(e, list):
+    return [_strip_flags(x) for x in e]
+  return e
+
+
+def cache_key(e):
+  """Expression equality as the library defines it (LazyFn.__eq__/__hash__): callable, args and kwargs, recursively;
+  the cache_result_/lazy_result_ flags of the expression and of its sub-expressions are not part of it."""
+  return canonical(_strip_flags(e))
+
+
 class Handle:
   """Model of a LazyObject returned for lazy_result_=True."""
 
@@ -99,7 +114,7 @@ class Model:
     if 'c' in e:
       return e['c']
     cached = e.get('cache', False)
-    key = canonical(e)
+    key = cache_key(e)
     if cached:
       if key in self.fn_cache:
         self.hits += 1
@@ -214,7 +229,7 @@ def run_history(case):
         else:
           check(_same_value(got, want), 'value-differs-from-eager', f'{w}: lazy value {got!r}, eager value {want!r}')
         if e.get('cache'):
-          key = canonical(e)
+          key = cache_key(e)
           prev = seen_identity.get(key)
           live = prev is not None and prev[1] is model.fn_cache.get(key)
           if live and not isinstance(want, Handle):
